@@ -9,7 +9,7 @@
    payload is listed in Packets(), contributes no bytes and is reported with an error.
    Not expressible in a value model, checked by goexec on every case instead: Packets()/Bytes()
    return independent copies; the packets given to WritePacket are never modified. *)
-From Gots Require Import Base.Prelude Model.Accumulator Spec.AccSpecDef Proofs.AccProofs.
+From Gots Require Import Base.Prelude Model.Accumulator Spec.AccSpecDef Proofs.AccProofs Proofs.AccHistory.
 Import Accumulator AccSpec.
 Local Open Scope N_scope.
 
@@ -113,6 +113,151 @@ Theorem C17_memory_bound : forall f ops, Forall wf_op ops ->
 Proof. exact memory_bound. Qed.
 Print Assumptions C17_memory_bound.
 
+(* ======== the clauses over ARBITRARY histories ========
+   Below, `ops` is any list of WritePacket/Reset/Bytes/Packets calls (Forall wf_op: the packets have
+   188 bytes), f any predicate, and a "reachable state" is the state  exec f new_acc ops  reached by
+   such a history.  `holds f b` (Spec/AccSpecDef.v): f b = (true, nil error).  A packet is "accepted"
+   when the accumulator is not complete and (it is accumulating or the packet is a unit start); the
+   accepted packet is appended to what is kept: nothing if it is a unit start, else the current unit. *)
+
+(* completion exactly at the first packet, as an invariant of every reachable state:
+   - the state is starting / accumulating / done; in the starting state nothing is held;
+   - accumulating: the predicate has not held after ANY packet with payload of the current unit;
+   - done: the unit is non-empty, its LAST packet has a payload, the predicate holds on the
+     accumulated bytes, and it did not hold after any earlier packet with payload of the unit. *)
+Theorem C17_completion_invariant : forall f ops, Forall wf_op ops ->
+  exists a, exec f new_acc ops = Ok a /\
+    let ps := get_packets a in
+    (state a = stateStarting \/ state a = stateAccumulating \/ state a = stateDone) /\
+    (state a = stateStarting -> ps = [] /\ get_bytes a = []) /\
+    (state a = stateAccumulating ->
+       ps <> [] /\ get_bytes a = bytes_of ps /\
+       forall k, (0 < k <= length ps)%nat -> payload_of (nth (k - 1) ps []) <> None ->
+                 holds f (bytes_of (firstn k ps)) = false) /\
+    (state a = stateDone ->
+       ps <> [] /\ payload_of (last ps []) <> None /\ holds f (bytes_of ps) = true /\
+       get_bytes a = bytes_of ps /\
+       forall k, (0 < k < length ps)%nat -> payload_of (nth (k - 1) ps []) <> None ->
+                 holds f (bytes_of (firstn k ps)) = false).
+Proof. exact completion_invariant. Qed.
+Print Assumptions C17_completion_invariant.
+
+(* the same invariant on the abstract accumulator (any operation list, no well-formedness needed) *)
+Theorem C17_completion_invariant_abs : forall f ops,
+  match a_exec f ANone ops with
+  | ANone => True
+  | AAcc ps =>
+      ps <> [] /\ unit_shape ps /\
+      forall k, (0 < k <= length ps)%nat -> payload_of (nth (k - 1) ps []) <> None ->
+                holds f (bytes_of (firstn k ps)) = false
+  | ADone ps =>
+      ps <> [] /\ unit_shape ps /\ payload_of (last ps []) <> None /\ holds f (bytes_of ps) = true /\
+      forall k, (0 < k < length ps)%nat -> payload_of (nth (k - 1) ps []) <> None ->
+                holds f (bytes_of (firstn k ps)) = false
+  end.
+Proof. exact completion_invariant_abs. Qed.
+Print Assumptions C17_completion_invariant_abs.
+
+(* the model state reached by a history is related (R) to the abstract state reached by it *)
+Theorem C17_reach_related : forall f ops a, Forall wf_op ops -> exec f new_acc ops = Ok a ->
+  R a (a_exec f ANone (map abs_op ops)).
+Proof. exact reach_R. Qed.
+Print Assumptions C17_reach_related.
+
+(* completion, one step from any reachable state: WritePacket moves to the done state exactly when
+   the packet is accepted, has a payload and the predicate holds on the NEW accumulated bytes; it
+   then returns (188, ErrAccumulatorDone); the new bytes are the kept bytes ++ the payload *)
+Theorem C17_completion_step_iff : forall f ops a pkt a' n e,
+  Forall wf_op ops -> exec f new_acc ops = Ok a -> wf_pkt pkt ->
+  write_packet f a pkt = Ok (a', (n, e)) ->
+  ((state a' = stateDone /\ state a <> stateDone) <->
+   (state a <> stateDone /\ (state a = stateAccumulating \/ has_pusi pkt = true) /\
+    payload_of pkt <> None /\ holds f (get_bytes a') = true)) /\
+  (state a' = stateDone -> state a <> stateDone -> n = 188%Z /\ e = Some E.AccumulatorDone) /\
+  (state a <> stateDone -> (state a = stateAccumulating \/ has_pusi pkt = true) ->
+   forall b, payload_of pkt = Some b ->
+             get_bytes a' = (if has_pusi pkt then [] else get_bytes a) ++ b).
+Proof. exact completion_step_iff. Qed.
+Print Assumptions C17_completion_step_iff.
+
+(* every accepted packet, whatever the predicate answers: count 188, the packet is listed after
+   the kept packets and its payload (nothing if it has none) is appended to the kept bytes *)
+Theorem C17_accepted_step : forall f ops a pkt,
+  Forall wf_op ops -> exec f new_acc ops = Ok a -> state a <> stateDone ->
+  wf_pkt pkt -> (state a = stateAccumulating \/ has_pusi pkt = true) ->
+  exists a' e, write_packet f a pkt = Ok (a', (188%Z, e)) /\
+               (state a' = stateAccumulating \/ state a' = stateDone) /\
+               get_bytes a' = (if has_pusi pkt then [] else get_bytes a) ++ payload_bytes pkt /\
+               get_packets a' = (if has_pusi pkt then [] else get_packets a) ++ [pkt].
+Proof. exact accepted_step. Qed.
+Print Assumptions C17_accepted_step.
+
+(* the predicate's error is propagated from any reachable state, whatever `done` flag comes with
+   it (d arbitrary): the accumulator keeps accumulating, it is NOT complete *)
+Theorem C17_pred_error_propagated : forall f ops a pkt b d e,
+  Forall wf_op ops -> exec f new_acc ops = Ok a -> state a <> stateDone ->
+  wf_pkt pkt -> (state a = stateAccumulating \/ has_pusi pkt = true) ->
+  payload_of pkt = Some b ->
+  f ((if has_pusi pkt then [] else get_bytes a) ++ b) = (d, Some e) ->
+  exists a', write_packet f a pkt = Ok (a', (188%Z, Some e)) /\
+             state a' = stateAccumulating /\
+             get_bytes a' = (if has_pusi pkt then [] else get_bytes a) ++ b /\
+             get_packets a' = (if has_pusi pkt then [] else get_packets a) ++ [pkt].
+Proof. exact pred_error_propagated. Qed.
+Print Assumptions C17_pred_error_propagated.
+
+(* a packet without usable payload, from any reachable state: reported with its error, listed,
+   contributes no bytes, and the predicate is not consulted (same result for every predicate g) *)
+Theorem C17_no_payload_reported : forall f ops a pkt,
+  Forall wf_op ops -> exec f new_acc ops = Ok a -> state a <> stateDone ->
+  wf_pkt pkt -> (state a = stateAccumulating \/ has_pusi pkt = true) ->
+  payload_of pkt = None ->
+  exists a', (forall g : pred, write_packet g a pkt = Ok (a', (188%Z, Some (payload_err pkt)))) /\
+             state a' = stateAccumulating /\
+             get_bytes a' = (if has_pusi pkt then [] else get_bytes a) /\
+             get_packets a' = (if has_pusi pkt then [] else get_packets a) ++ [pkt].
+Proof. exact no_payload_reported. Qed.
+Print Assumptions C17_no_payload_reported.
+
+(* refused in the starting state, however it was reached (new, after Reset, after refusals):
+   error, count 188, state untouched *)
+Theorem C17_starting_refuses : forall f a pkt,
+  state a = stateStarting -> wf_pkt pkt -> has_pusi pkt = false ->
+  write_packet f a pkt = Ok (a, (188%Z, Some E.NoPayloadUnitStartIndicator)).
+Proof. exact starting_refuses. Qed.
+Print Assumptions C17_starting_refuses.
+
+(* once complete, every further sequence of packets is refused and Bytes()/Packets() do not change *)
+Theorem C17_done_absorbs : forall f a, state a = stateDone -> forall pkts,
+  run f a (map OWrite pkts ++ [OBytes; OPackets])
+  = Ok (map (fun _ => RWrite 0%Z (Some E.AccumulatorDone)) pkts ++ [RBytes (get_bytes a); RPackets (get_packets a)]).
+Proof. exact done_absorbs. Qed.
+Print Assumptions C17_done_absorbs.
+
+(* Reset after an arbitrary history `pre`: what follows is observed exactly as on a new accumulator *)
+Theorem C17_reset_fresh_history : forall f pre ops,
+  run f new_acc (pre ++ OReset :: ops)
+  = let? o1 := run f new_acc pre in let? o2 := run f new_acc ops in Ok (o1 ++ RReset :: o2).
+Proof. exact reset_fresh_history. Qed.
+Print Assumptions C17_reset_fresh_history.
+
+Theorem C17_reset_fresh_history_ok : forall f pre ops, Forall wf_op pre -> Forall wf_op ops ->
+  exists o1 o2, run f new_acc pre = Ok o1 /\ run f new_acc ops = Ok o2 /\
+                run f new_acc (pre ++ OReset :: ops) = Ok (o1 ++ RReset :: o2).
+Proof. exact reset_fresh_history_ok. Qed.
+Print Assumptions C17_reset_fresh_history_ok.
+
+(* after any history the listed packets are one unit: none, or a unit start followed by packets
+   that are not unit starts ("the packets accepted since the most recent unit start") *)
+Theorem C17_unit_shape : forall f ops, Forall wf_op ops ->
+  exists a, exec f new_acc ops = Ok a /\
+    match get_packets a with
+    | [] => True
+    | p :: t => has_pusi p = true /\ Forall (fun q => has_pusi q = false) t
+    end.
+Proof. exact unit_shape_reach. Qed.
+Print Assumptions C17_unit_shape.
+
 (* non-vacuity: unit start with 184 payload bytes, a continuation with a 100-byte adaptation
    field (83 payload bytes), threshold predicate "done when >= 200 bytes": done at the second
    packet, third refused *)
@@ -127,3 +272,31 @@ Example C17_nonvacuous :
         RWrite 188%Z (Some E.AccumulatorDone); RWrite 0%Z (Some E.AccumulatorDone);
         RBytes (repeat 1 184 ++ repeat 2 83); RPackets [ex_p0; ex_p1]].
 Proof. vm_compute. repeat split. Qed.
+
+(* non-vacuity of the arbitrary-history theorems: a history with a refusal, a unit that completes, a
+   Reset, a unit start without payload, and a predicate that answers (true, error) from 100 bytes on:
+   the hypotheses of C17_pred_error_propagated (with d = true), C17_no_payload_reported,
+   C17_completion_step_iff and C17_reset_fresh_history_ok are met by concrete values *)
+Definition ex_np : bytes := [71; 64; 17; 32; 183] ++ repeat 255 183.          (* unit start, adaptation field only *)
+Definition ex_g : pred := fun d => (100 <=? len d, if 100 <=? len d then Some 77 else None).
+Definition ex_hist : list Accumulator.aop := [OWrite ex_p1; OWrite ex_p0; OWrite ex_p1; OReset; OWrite ex_np].
+Example C17_nonvacuous_history :
+  Forall wf_op ex_hist /\ wf_pkt ex_np /\ has_pusi ex_np = true /\ payload_of ex_np = None /\
+  (* predicate with done and error at once: error returned, still accumulating *)
+  (exists a, exec ex_g new_acc ex_hist = Ok a /\ state a = stateAccumulating /\ get_packets a = [ex_np] /\
+             get_bytes a = [] /\ ex_g ((if has_pusi ex_p0 then [] else get_bytes a) ++ repeat 1 184) = (true, Some 77) /\
+             exists a', write_packet ex_g a ex_p0 = Ok (a', (188%Z, Some 77)) /\ state a' = stateAccumulating) /\
+  (* completion in the middle of a history, then Reset, then a unit start without payload *)
+  (exists a, exec ex_f new_acc (firstn 2 ex_hist) = Ok a /\ state a = stateAccumulating /\
+             exists a', write_packet ex_f a ex_p1 = Ok (a', (188%Z, Some E.AccumulatorDone)) /\
+                        state a' = stateDone /\ holds ex_f (get_bytes a') = true) /\
+  run ex_f new_acc (ex_hist ++ [OBytes; OPackets; OWrite ex_p1])
+  = Ok [RWrite 188%Z (Some E.NoPayloadUnitStartIndicator); RWrite 188%Z None;
+        RWrite 188%Z (Some E.AccumulatorDone); RReset; RWrite 188%Z (Some E.NoPayload);
+        RBytes []; RPackets [ex_np]; RWrite 188%Z None].
+Proof.
+  split; [repeat constructor|]. split; [reflexivity|]. split; [reflexivity|]. split; [reflexivity|].
+  split; [eexists; split; [vm_compute; reflexivity|]; vm_compute; repeat split; eexists; split; reflexivity|].
+  split; [eexists; split; [vm_compute; reflexivity|]; vm_compute; split; [reflexivity|]; eexists; repeat split|].
+  vm_compute. reflexivity.
+Qed.
